@@ -6,6 +6,8 @@
 //!   cg_full D threads              -> `h inv,.. | gens | rels | files`   (with output directory: every
 //!                                     line of relations.sieve, classnumber, group.structure)
 //!   cg_estimate D                  -> floor(1000*hmin) ceil(1000*hmax)
+//!   cg_estimate_bits D             -> the two f64 of classgroup::estimate as IEEE bit patterns (u64, decimal): nothing is
+//!                                     lost for |D| of hundreds of bits, where 1000*h no longer fits u128
 //!   cg_b_plus p r even             -> Prime::b_plus
 //!   cg_fb_bplus D size             -> `p:r:bplus(type of D),...` for the factor base the class group code builds
 //!   cg_crel_history maxlarge rels  -> emitted relations + bookkeeping of CRelationSet (paths, stored relations: hook)
@@ -224,6 +226,11 @@ fn handle_with(op: &str, a: &[&str], pf: Preferences) -> Option<String> {
             let d = int_of(d)?;
             let (h1, h2) = classgroup::estimate(&d);
             Some(format!("{} {}", (h1 * 1000.0).floor() as u128, (h2 * 1000.0).ceil() as u128))
+        }
+        ("cg_estimate_bits", [d]) => {
+            let d = int_of(d)?;
+            let (h1, h2) = classgroup::estimate(&d);
+            Some(format!("{} {}", h1.to_bits(), h2.to_bits()))
         }
         ("cg_b_plus", [p, r, even]) => {
             let p = u32_of(p)?;
